@@ -49,6 +49,7 @@ Rebuild(E, M, r, c, form) == [p \in (1..r) \X (1..c) |->
 VARIABLE q
 Init == CASE Mode = "lists" -> q \in UNION {{<<s, g>> : s \in {1, 9997, 99999900}, g \in [1..(n - 1) -> {1, 2}]} : n \in 1..MaxN}
           [] Mode = "perms" -> q \in UNION {{<<s, g>> : s \in {0, 1000}, g \in {f \in [1..n -> 1..(MaxN + 1)] : \A i, j \in 1..n : i # j => f[i] # f[j]}} : n \in 1..MaxN}
+          [] Mode = "layouts" -> q \in 1..MaxN
           [] Mode = "ints" -> q \in (2..9) \X (0..MaxN)
           [] Mode = "dmig" -> q \in UNION {{<<d, M, k>> : M \in Mats(d[1], d[2]), k \in {"dof", "plain", "dof2"}} : d \in Dims}
 Next == UNCHANGED q
@@ -80,6 +81,28 @@ IntLaws == Mode = "ints" =>
    /\ \A i \in 1..(n - 1) : IntPos(start, i + 1) = NextCell(IntPos(start, i))        \* no cell skipped, none used twice, order kept
    /\ IntLines(start, n) = IF n <= 10 - start THEN 1 ELSE 1 + (n - (10 - start) + 7) \div 8
 ExportInts == (Mode = "ints" /\ Export) => PrintT(<<"INTS", q[1], q[2], [i \in 1..q[2] |-> IntPos(q[1], i)], IntLines(q[1], q[2])>>)
+\* ---- field layouts of element / load cards written by dedicated writers and read by the generic card reader (growth) --------------------
+\* a layout is the sequence of field names of the card after its name ("" = a field left blank); trailing blanks are not part of a card
+Rep(x, n) == [i \in 1..n |-> x]
+Rbe2Layout(n) == <<"eid", "indep", "dof">> \o [i \in 1..n |-> "dep" \o ToString(i)]
+Conm2Layout == <<"eid", "gid", "cid", "mass", "x1", "x2", "x3", "", "i11", "i21", "i22", "i31", "i32", "i33">>
+Term(k) == <<"g" \o ToString(k), "c" \o ToString(k), "a" \o ToString(k)>>
+RECURSIVE MpcTerms(_, _)
+\* two terms per line; every line ends with a blank field and every continuation line starts with one
+MpcTerms(k, n) == IF k > n THEN <<>> ELSE
+                  IF k + 1 > n THEN Term(k) ELSE Term(k) \o Term(k + 1) \o (IF k + 2 > n THEN <<>> ELSE <<"", "">> \o MpcTerms(k + 2, n))
+MpcLayout(n) == <<"sid">> \o MpcTerms(1, n)
+Tabdmp1Layout(n) == <<"id", "type">> \o Rep("", 6) \o [i \in 1..(2 * n) |-> (IF i % 2 = 1 THEN "f" ELSE "g") \o ToString((i + 1) \div 2)] \o <<"ENDT">>
+Tload1Layout == <<"sid", "exciteid", "delay", "type", "tid">>
+Tload2Layout == <<"sid", "exciteid", "delay", "type", "t1", "t2", "f", "p", "c", "b">>
+LayoutLaws == Mode = "layouts" =>
+   /\ \A n \in 1..MaxN : Len(Rbe2Layout(n)) = n + 3 /\ Len(Tabdmp1Layout(n)) = 2 * n + 9
+   /\ \A n \in 1..MaxN : LET L == MpcLayout(n) IN
+         /\ Len(SelectSeq(L, LAMBDA x : x # "")) = 3 * n + 1
+         /\ \A i \in 1..Len(L) : L[i] = "" => (i % 8 = 0 \/ i % 8 = 1)           \* blanks only in fields 9 and 2 of the lines (name = field 1)
+ExportLayouts == (Mode = "layouts" /\ Export) =>
+   PrintT(<<"LAYOUT", q, [rbe2 |-> Rbe2Layout(q), mpc |-> MpcLayout(q), tabdmp1 |-> Tabdmp1Layout(q), conm2 |-> Conm2Layout,
+                          tload1 |-> Tload1Layout, tload2 |-> Tload2Layout]>>)
 ExportLists == (Mode = "lists" /\ Export) => PrintT(<<"IDS", Ids, Runs(Ids), TableLines(Len(Ids), 4), TableLines(Len(Ids), 2)>>)
 ExportDmig == (Mode = "dmig" /\ Export) =>
    LET r == q[1][1] c == q[1][2] M == q[2] f == Form(M, r, c, q[3]) IN
